@@ -284,6 +284,8 @@ struct Rig {
     delivered: u64,
     split_reads: u64,
     fifo_oracle: bool,
+    /// a blocking write reported a send timeout and its remainder may still be pending
+    reported_send_timeout: bool,
     /// oracle hits raised inside composite ops, collected after each op
     late_oracle: Vec<(String, String)>,
 }
@@ -334,6 +336,7 @@ impl Rig {
             delivered: 0,
             split_reads: 0,
             fifo_oracle: true,
+            reported_send_timeout: false,
             late_oracle: vec![],
         }
     }
@@ -1120,6 +1123,19 @@ impl Area for ChannelArea {
                 v.push("drain 20".into());
                 v
             },
+            // former class blocking-write-ok-with-unsent-remainder: the kernel takes 7 bytes, then a
+            // send timeout: now Err(Write), remainder kept; a later complete blocking write sends both
+            {
+                let a = build_msg(1, 99).unwrap();
+                let b = build_msg(2, 13).unwrap();
+                vec![
+                    "new 100 200".to_string(),
+                    format!("bw 1 {} 7", segs(&a.encode_to_vec())),
+                    "drain 20".into(),
+                    format!("bw 2 {} {ALL}", segs(&b.encode_to_vec())),
+                    "drain 20".into(),
+                ]
+            },
             // empty payload frame (8 bytes) decodes to the default message
             s(&["new 100 200", "rawgood ~ 0800000000000000", "deliver 3", "readable", "read", "deliver 5", "readable", "read", "read", "drain 10"]),
             // hang-up
@@ -1229,6 +1245,14 @@ impl Area for ChannelArea {
                                 Ok(()) => {
                                     g.expected.push_back(m);
                                     "ok".into()
+                                }
+                                Err(ChannelError::Write(_)) => {
+                                    // a reported send timeout: the frame is in the back buffer (accepted,
+                                    // at most once), its remainder goes out with the next blocking write
+                                    g.expected.push_back(m);
+                                    g.reported_send_timeout = true;
+                                    run.tags.push("bwerr:write".into());
+                                    "err write".into()
                                 }
                                 Err(e) => {
                                     let s = err_str(&e);
@@ -1345,7 +1369,13 @@ impl Area for ChannelArea {
                         run.tags.push(format!("drain-last:{kind}"));
                         // the fair schedule ran to quiescence: nothing may be outstanding
                         if g.fifo_oracle && !g.expected.is_empty() && !g.closed {
-                            run.oracle.push(g.stuck_class(&last));
+                            let (class, detail) = g.stuck_class(&last);
+                            if class == "blocking-write-ok-with-unsent-remainder" && g.reported_send_timeout {
+                                // the caller was told (Err(Write)): the remainder waits for the next blocking write
+                                run.tags.push("remainder-after-reported-send-timeout".into());
+                            } else {
+                                run.oracle.push((class, detail));
+                            }
                         }
                         format!("drained {} {}", if ids.is_empty() { "-".into() } else { ids.join(",") }, last)
                     }
